@@ -17,12 +17,16 @@ import (
 // Unmarshal(Marshal(x)) = x after Reset, Marshal total and deterministic, an ESDTRoles value
 // without roles encodes to the empty string - discharged for the generated code by C14.
 type Codec struct {
-	W       *World
-	Handles []*Handle
+	W          *World
+	Handles    []*Handle
+	Marshalled [][]byte // what Marshal returned, in call order
+	nGen       int
+	nMarshal   int
 }
 
 // Handle is one marshalled object.
 type Handle struct {
+	Gen   bool
 	Bytes []byte
 	Tok   *esdt.ESDigitalToken
 	Roles *esdt.ESDTRoles
@@ -32,8 +36,20 @@ const handleMagic = 0xA5
 
 func (c *Codec) IsInterfaceNil() bool { return c == nil }
 
-func (c *Codec) newHandle() *Handle {
-	id := len(c.Handles)
+func (c *Codec) newHandle() *Handle { return c.newHandleKind(false) }
+
+// newHandleKind allots a handle. Generated (pre-state) handles and handles produced by Marshal
+// live in separate id spaces so that Reset can drop the latter and a repeated run is handed
+// the very same bytes again (C13).
+func (c *Codec) newHandleKind(gen bool) *Handle {
+	var id int
+	if gen {
+		id = 0x80 + c.nGen
+		c.nGen++
+	} else {
+		id = c.nMarshal
+		c.nMarshal++
+	}
 	n := 3 + id%3
 	b := make([]byte, n)
 	b[0] = handleMagic
@@ -41,9 +57,22 @@ func (c *Codec) newHandle() *Handle {
 	for i := 2; i < n; i++ {
 		b[i] = byte(0x10 + i)
 	}
-	h := &Handle{Bytes: b}
+	h := &Handle{Bytes: b, Gen: gen}
 	c.Handles = append(c.Handles, h)
 	return h
+}
+
+// Reset forgets everything Marshal produced (pre-state handles stay).
+func (c *Codec) Reset() {
+	var keep []*Handle
+	for _, h := range c.Handles {
+		if h.Gen {
+			keep = append(keep, h)
+		}
+	}
+	c.Handles = keep
+	c.nMarshal = 0
+	c.Marshalled = nil
 }
 
 // Marshal implements vmcommon.Marshalizer.
@@ -55,6 +84,7 @@ func (c *Codec) Marshal(obj interface{}) ([]byte, error) {
 	case *esdt.ESDigitalToken:
 		h := c.newHandle()
 		h.Tok = CloneToken(x)
+		c.Marshalled = append(c.Marshalled, h.Bytes)
 		return h.Bytes, nil
 	case *esdt.ESDTRoles:
 		if len(x.Roles) == 0 {
@@ -62,6 +92,7 @@ func (c *Codec) Marshal(obj interface{}) ([]byte, error) {
 		}
 		h := c.newHandle()
 		h.Roles = CloneRoles(x)
+		c.Marshalled = append(c.Marshalled, h.Bytes)
 		return h.Bytes, nil
 	}
 	panic("codec: Marshal of unexpected type")
@@ -107,7 +138,7 @@ func (c *Codec) Unmarshal(obj interface{}, buf []byte) error {
 			return ErrFault
 		}
 		t := ArbitraryToken("decoded")
-		nh := &Handle{Bytes: buf, Tok: CloneToken(t)}
+		nh := &Handle{Gen: true, Bytes: buf, Tok: CloneToken(t)}
 		c.Handles = append(c.Handles, nh)
 		*x = *t
 		return nil
